@@ -1,5 +1,6 @@
 // Engine part 4: property monitors that plug into the explorer.
 #pragma once
+#include "engine/refmodel.hpp"
 
 namespace vt {
 
@@ -86,7 +87,197 @@ int Explorer<FSM>::replay(const std::string& enc) {
 
 template <typename FSM> void Explorer<FSM>::inCallbackMore(int, int, int, void*) {}
 template <typename FSM> void Explorer<FSM>::liveChecks(Runner&, Exec&) {}
-template <typename FSM> void Explorer<FSM>::afterExec(const Node&, Exec&) {}
+template <typename FSM> void Explorer<FSM>::afterExec(const Node& node, Exec& x) {
+	if (props & P_C02) checkC02(node, x);
+}
+
+// ---- C02: reference semantics on every edge ----------------------------------------------------------
+template <typename FSM>
+void Explorer<FSM>::checkC02(const Node& node, Exec& x) {
+	const Op& op = x.step.op;
+	if (!x.activatedBefore) return;
+	if (!(op.type == OP_IMMEDIATE || op.type == OP_BATCH || op.type == OP_UPDATE || op.type == OP_REACT || op.type == OP_RESET)) return;
+	struct Rq { int kind, dest, origin; };
+	std::vector<Rq> reqs;
+	bool cancel = false, planAct = false, guardSeen = false;
+	int round1 = 0, later = 0, lifecycle = 0;
+	for (size_t i = x.stepBegin; i < x.stepEnd; ++i) {
+		const TraceEv& e = x.trace[i];
+		switch (e.meth) {
+		case E_REQUEST: reqs.push_back(Rq{e.a, e.b, e.state}); if (e.a != T_SCHEDULE || true) { if (guardSeen) ++later; else ++round1; } break;
+		case E_CANCEL: cancel = true; break;
+		case E_SUCCEED: case E_FAIL: case M_PLAN_SUCCEEDED: case M_PLAN_FAILED: case E_PLAN_APPEND: case E_PLAN_CLEAR: planAct = true; break;
+		case M_ENTRY_GUARD: case M_EXIT_GUARD: guardSeen = true; break;
+		case M_ENTER: case M_EXIT: case M_REENTER: ++lifecycle; break;
+		default: break;
+		}
+	}
+	if (cancel || planAct) { ++counters["c02_skipped_veto_or_plan"]; return; }
+	if (round1 > VT_COUNTS.compo || later > VT_COUNTS.compo) { ++counters["c02_skipped_over_capacity"]; return; }
+	if (op.type == OP_RESET) {
+		// reset() == first activation: same configuration, nothing resumable, same enter sequence
+		if (!x.step.script.empty()) return;
+		bool same = x.after.active == initialSnap.active;
+		bool anyRes = false;
+		for (int s = 0; s < N; ++s) anyRes = anyRes || x.after.resumable[s];
+		std::vector<int> enters;
+		for (size_t i = x.stepBegin; i < x.stepEnd; ++i) if (x.trace[i].meth == M_ENTER && x.trace[i].layer == 0) enters.push_back(x.trace[i].state);
+		if (!same) violation("C02", "reset/config", "reset() did not re-activate the machine in its initial configuration", x);
+		else if (anyRes) violation("C02", "reset/resumable", "a sub-state is still reported resumable after reset()", x);
+		else if (enters != initialEnters) violation("C02", "reset/enter-sequence", "reset() enters states in a different order than the first activation", x);
+		++compared;
+		return;
+	}
+	if (reqs.empty()) {
+		// processing with no pending request changes nothing
+		if (x.keyAfter != x.keyBefore) violation("C02", "empty-step/state", "a step without requests changed the state (" + x.keyBefore + " -> " + x.keyAfter + ")", x);
+		else if (lifecycle) violation("C02", "empty-step/lifecycle", "a step without requests ran lifecycle callbacks", x);
+		++compared;
+		return;
+	}
+	RefModel<FSM> m;
+	m.init(x.before);
+	const std::vector<Choice>& sc = x.step.script;
+	auto answer = [&sc](int state, uint8_t meth) { for (const Choice& c : sc) if (c.key.state == state && c.key.meth == meth && c.key.occ == 0xFFFF) return (int) c.alt; return 0; };
+	m.selectOf = [&](int s) { return E::named(s) ? answer(s, M_SELECT) : 0; };
+#if VT_UTILITY
+	m.utilityOf = [&](int s) { return E::named(s) ? E::UTIL_MENU[answer(s, M_UTILITY)] : 0.0f; };  // anonymous heads report utility 0
+	m.rankOf = [&](int s) { return E::named(s) ? E::RANK_MENU[answer(s, M_RANK)] : 0; };
+	if (answer(-1, E_RNG) >= RNG_EXACT) { ++counters["c02_skipped_inexact_random"]; return; }
+	m.rnd = RNG_MENU[answer(-1, E_RNG)];
+#else
+	m.utilityOf = [](int) { return 1.0f; };
+	m.rankOf = [](int) { return 0; };
+#endif
+	for (const Rq& r : reqs) m.request(r.kind, r.dest);
+	m.commit();
+	if (m.randomFellOff) { ++counters["c02_skipped_random_rounding"]; return; }
+	++compared;
+	++counters["c02_edges_compared"];
+	int nns = 0;
+	Rq lastNs{0, 0, 0};
+	for (const Rq& r : reqs) if (r.kind != T_SCHEDULE) { ++nns; lastNs = r; }
+	auto isAncestorOrSelf = [](int a, int s) { for (int t = s; t >= 0; t = E::D(t).parent) if (t == a) return true; return false; };
+	auto activeChain = [&](int d) { for (int t = d; t >= 0; t = E::D(t).parent) if (!x.after.active[t]) return false; return true; };
+	std::string exp, got;
+	for (int s = 0; s < N; ++s) { if (m.activeAfter(s)) exp += " S" + str(s); if (x.after.active[s]) got += " S" + str(s); }
+	// --- configuration
+	int bad = -1;
+	for (int s = 0; s < N && bad < 0; ++s) if (m.activeAfter(s) != (x.after.active[s] != 0)) bad = s;
+	if (nns <= 1) {
+		// single transition request (plus scheduling requests): full functional equality with the reference semantics
+		if (bad >= 0) {
+			const std::string fp = m.usedSelectOnRegion ? std::string("config/select-into-region") : std::string("single/") + KIND_NAMES[lastNs.kind];
+			violation("C02", fp, "after " + op.text() + " the active configuration is {" + got + " } but the rules prescribe {" + exp + " } (first difference at S" + str(bad) + ")", x);
+			return;
+		}
+	} else {
+		// batches: the statement-level clauses (DESIGN 3.4 (i)-(iii)); agreement with the map model is only counted
+		if (bad >= 0) ++counters["c02_batch_model_differs_observed"];
+		if (!m.usedSelectOnRegion) {
+			// (i) the last request always wins
+			if (!activeChain(lastNs.dest)) {
+				violation("C02", "batch/last-request-loses", "after " + op.text() + " the destination S" + str(lastNs.dest) + " of the LAST request (or one of its ancestors) is not active; active: {" + got + " }", x);
+				return;
+			}
+			// (ii) an earlier destination stays unless a later request conflicts with it
+			for (size_t i = 0; i + 1 < reqs.size(); ++i) {
+				if (reqs[i].kind == T_SCHEDULE) continue;
+				bool conflict = false;
+				for (size_t j = i + 1; j < reqs.size() && !conflict; ++j) {
+					if (reqs[j].kind == T_SCHEDULE) continue;
+					const int d1 = reqs[i].dest, d2 = reqs[j].dest;
+					if (isAncestorOrSelf(d2, d1)) { conflict = true; break; }	// re-targets a region containing d1
+					// paths diverge at a composite-style ancestor
+					for (int t = d1; E::D(t).parent >= 0 && !conflict; t = E::D(t).parent) {
+						const int a = E::D(t).parent;
+						if (!E::isCompo(a)) continue;
+						if (isAncestorOrSelf(a, d2) && d2 != a) {
+							int u = d2; while (E::D(u).parent != a) u = E::D(u).parent;
+							if (u != t) conflict = true;
+						}
+					}
+					// d2 below d1: d1 is re-resolved along d2's path, still active
+				}
+				if (!conflict && !activeChain(reqs[i].dest)) {
+					violation("C02", "batch/earlier-request-lost", "after " + op.text() + " the destination S" + str(reqs[i].dest) + " of an earlier, non-conflicting request is not active; active: {" + got + " }", x);
+					return;
+				}
+			}
+		}
+	}
+	// (iii) regions no request touches keep their sub-state (all batch sizes)
+	{
+		std::vector<uint8_t> touchedRegion(N, 0);
+		for (const Rq& r : reqs) {
+			if (r.kind == T_SCHEDULE) { if (E::D(r.dest).parent >= 0) touchedRegion[E::D(r.dest).parent] = 1; continue; }
+			if (r.dest == 0) { std::fill(touchedRegion.begin(), touchedRegion.end(), 1); break; }
+			// composite ancestors of the destination, and everything inside the sub-tree of the nearest composite ancestor's child
+			int top = r.dest;
+			for (int t = r.dest; E::D(t).parent >= 0; t = E::D(t).parent) { touchedRegion[E::D(t).parent] = 1; }
+			while (E::D(top).parent >= 0 && !E::isCompo(E::D(top).parent)) top = E::D(top).parent;
+			// a switch of any ancestor exits/enters whole sub-trees: everything below a switched ancestor is touched as well
+			for (int t = r.dest; E::D(t).parent >= 0; t = E::D(t).parent) {
+				const int a = E::D(t).parent;
+				if (E::isCompo(a) && x.before.activeSub[a] != E::D(t).prong) { top = t; for (int q = a + 1; q < a + E::D(a).size; ++q) touchedRegion[q] = 1; }
+			}
+			for (int q = top; q < top + E::D(top).size; ++q) touchedRegion[q] = 1;
+		}
+		for (int r = 0; r < N; ++r)
+			if (E::isCompo(r) && !touchedRegion[r]) {
+				bool sameRes = true;
+				for (int p = 0; p < E::D(r).width; ++p) sameRes = sameRes && x.before.resumable[E::child(r, p)] == x.after.resumable[E::child(r, p)];
+				if (x.before.activeSub[r] != x.after.activeSub[r] || x.before.active[r] != x.after.active[r] || !sameRes) {
+					violation("C02", "untouched/changed", "after " + op.text() + " region S" + str(r) + ", which no request touches, changed its active or resumable sub-state", x);
+					return;
+				}
+			}
+	}
+	// --- resumable marks: each region remembers the sub-state it last left (per the exit callbacks actually delivered)
+	// or was given by schedule; policy (a): only judged when that sub-state is not the active one
+	{
+		std::vector<int> last(N, -2);
+		for (size_t i = x.stepBegin; i < x.stepEnd; ++i) {
+			const TraceEv& e = x.trace[i];
+			if (e.meth == M_EXIT && e.layer == 0) {
+				// attribute to every composite ancestor region for which this state is (inside) a direct child whose head it is
+				const int s = e.state;
+				int t = s;
+				// climb through anonymous (headless) region heads that have no callback of their own
+				while (true) {
+					const int a = E::D(t).parent;
+					if (a < 0) break;
+					if (E::isCompo(a)) last[a] = E::D(t).prong;
+					if (E::named(a)) break;	 // a named parent reports its own exit
+					t = a;
+				}
+			} else if (e.meth == E_REQUEST && e.a == T_SCHEDULE) {
+				const int a = E::D(e.b).parent;
+				if (a >= 0 && E::isCompo(a)) last[a] = E::D(e.b).prong;
+			}
+		}
+		for (int r = 0; r < N; ++r) {
+			if (!E::isCompo(r)) continue;
+			int before = -1, after = -1, nAfter = 0;
+			for (int p = 0; p < E::D(r).width; ++p) {
+				if (x.before.resumable[E::child(r, p)]) before = p;
+				if (x.after.resumable[E::child(r, p)]) { after = p; ++nAfter; }
+			}
+			const int L = last[r] != -2 ? last[r] : before;
+			if (nAfter > 1) { violation("C02", "resumable/two-marks", "two sub-states of S" + str(r) + " are reported resumable", x); return; }
+			if (L >= 0 && x.after.active[r] && L == x.after.activeSub[r]) continue;
+			if (after != L) {
+				std::string fp = "resumable/other";
+				if (x.before.active[r] && x.after.active[r] && x.before.activeSub[r] != x.after.activeSub[r] && L == x.before.activeSub[r]) fp = "resumable/switch-not-recorded";
+				else if (last[r] == -2) fp = "resumable/unchanged-region-changed";
+				violation("C02", fp, "after " + op.text() + " region S" + str(r) + " reports sub-state #" + str(after) + " resumable, expected #" + str(L) +
+						  " (the one it last left / was scheduled)", x);
+				return;
+			}
+		}
+	}
+}
+
 template <typename FSM> void Explorer<FSM>::extraOps(const Node&, std::vector<Op>&) const {}
 template <typename FSM> void Explorer<FSM>::perState(const Node&) {}
 template <typename FSM> void Explorer<FSM>::finish() {}
